@@ -88,6 +88,9 @@ func (c *CodecConn[Enc, Dec]) ReadNext() (Dec, error) {
 func (c *CodecConn[Enc, Dec]) WriteNext(item Enc) (n int, err error) {
 	err = c.codec.Encode(item, c.dst)
 	if err == nil {
+		// Encoders are expected to Commit() what they serialize; commit whatever
+		// one left in the write area so the whole item is sent now.
+		c.dst.Commit(c.dst.WriteLen())
 		var nn int64
 		nn, err = c.dst.WriteTo(c.stream)
 		n = int(nn)
@@ -98,6 +101,7 @@ func (c *CodecConn[Enc, Dec]) WriteNext(item Enc) (n int, err error) {
 func (c *CodecConn[Enc, Dec]) AsyncWriteNext(item Enc, cb AsyncCallback) {
 	err := c.codec.Encode(item, c.dst)
 	if err == nil {
+		c.dst.Commit(c.dst.WriteLen())
 		c.dst.AsyncWriteTo(c.stream, cb)
 	} else {
 		cb(err, 0)
